@@ -31,6 +31,8 @@ struct G {
     deferred_case_write: bool,
     /// weights that differ between the three properties
     prop: &'static str,
+    /// CASE handshakes in their last leg (reserved session id, fabric index)
+    pending_hs: Vec<(u32, u8)>,
 }
 
 impl G {
@@ -94,7 +96,9 @@ impl G {
                 if noc_done {
                     // finish over CASE on the fail-safe's fabric
                     if let Some(s) = self.sess_where(v, |s| s.1 == 'c' && s.2 == fab && !s.3) {
-                        if self.r.chance(1, 4) || v.fault_pending {
+                        // (a fault that would hit the SECOND write of CommissioningComplete is the open
+                        // finding C08-complete-partial-commit: left to the corpus)
+                        if self.r.chance(1, 4) || v.fault_in >= 2 {
                             return self.write_op(s);
                         }
                         return format!("complete {}", s);
@@ -109,11 +113,7 @@ impl G {
                     return format!("cest {} {} {}", fab, self.node(), self.next_rid());
                 };
                 let is_case = v.sessions.iter().any(|x| x.0 == s && x.1 == 'c');
-                if is_case && self.deferred_case_write && flags & F_UPD_CSR == 0 && flags & (F_ADD_CSR | F_ROOT) != 0 {
-                    // open finding C08-failsafe-context-switch is left to the corpus: end this context
-                    return format!("arm {} 0", s);
-                }
-                if is_case && (self.r.chance(2, 3) || self.deferred_case_write) && flags & (F_ADD_CSR | F_ROOT) == 0 {
+                if is_case && self.r.chance(2, 3) && flags & (F_ADD_CSR | F_ROOT) == 0 {
                     // UpdateNOC flow, or plain network / ACL work under the fail-safe
                     if flags & F_UPD_CSR == 0 {
                         if self.r.chance(1, 3) {
@@ -139,7 +139,9 @@ impl G {
     }
 
     fn write_op(&mut self, s: u32) -> String {
-        match self.r.below(4) {
+        match self.r.below(6) {
+            4 => format!("gkm {} {}", s, self.r.range(1, 9)),
+            5 => format!("bcw {} {}", s, self.r.range(1, 9)),
             0 => format!("acl {} {}", s, self.r.range(200, 203)),
             1 => format!("grp {} {}", s, self.r.range(1, 3)),
             2 => format!("label {} {}", s, self.r.range(1, 4)),
@@ -152,6 +154,22 @@ impl G {
         let s = self.any_sess(v);
         let c07 = self.prop == "C07";
         let c11 = self.prop == "C11";
+        // a CASE handshake in its last leg: the fabric goes away underneath it, then the last ack arrives
+        if !self.pending_hs.is_empty() && self.r.chance(if c07 { 1 } else { 2 }, 6) {
+            let (hsid, hfab) = *self.r.pick(&self.pending_hs);
+            if !v.fabrics.contains(&hfab) || self.r.chance(1, 3) {
+                return format!("hsdone {}", hsid);
+            }
+            return match self.r.below(3) {
+                0 => format!("rmfab {} {}", s, hfab),
+                1 => format!("arm {} 0", s),
+                _ => format!("tick {}", self.r.pick(&[61u64, 121])),
+            };
+        }
+        if !v.fabrics.is_empty() && self.r.chance(if c07 { 1 } else { 1 }, if c07 { 12 } else { 40 }) {
+            let f = *self.r.pick(&v.fabrics);
+            return format!("hs {} {} {}", f, self.node(), self.next_rid());
+        }
         let x = self.r.below(100);
         match x {
             0..=5 => format!("arm {} {}", s, self.r.pick(&[0u64, 0, 1, 60, 65535])),
@@ -162,7 +180,7 @@ impl G {
             20..=27 => self.write_op(s),
             28..=29 => format!("rmnet {} {}", s, self.r.range(1, 3)),
             30..=34 => {
-                if v.fault_pending {
+                if v.fault_in >= 2 {
                     "poll".into()
                 } else {
                     format!("complete {}", s)
@@ -189,7 +207,9 @@ impl G {
             83..=85 => "flush".into(),
             86..=89 => "restart".into(),
             90..=92 => {
-                if c07 {
+                // (C07: a fault while a fail-safe is armed can hit the purge of a rollback - open finding
+                // C07-failed-purge-on-rollback, left to the corpus)
+                if c07 && (v.armed.is_some() || self.r.chance(1, 2)) {
                     "poll".into()
                 } else {
                     format!("kvfail {}", self.r.range(1, 2))
@@ -215,7 +235,13 @@ impl G {
                 }
             }
             _ => {
-                if c11 && self.r.chance(1, 2) {
+                if c11 && self.r.chance(1, 3) {
+                    format!("rt {} {}", self.r.pick(&["fab", "nets", "res", "binfo"]), self.r.range(0, 1 << 40))
+                } else if c11 && self.r.chance(1, 3) {
+                    "coldreset".into()
+                } else if c11 && self.r.chance(1, 3) {
+                    format!("fabrecover {}", self.r.pick(&[1u64, 1, 2, 3, 200, 255]))
+                } else if c11 && self.r.chance(1, 2) {
                     "freset".into()
                 } else {
                     format!("tick {}", self.r.range(1, 70))
@@ -226,7 +252,7 @@ impl G {
 }
 
 fn gen_case(out: &mut Out, cas: &Rc<Vec<Ca>>, id: u64, seed_rng: &mut Rng, prop: &'static str, len: usize) {
-    let mut g = G { r: seed_rng.fork(), serial: 0, rid: 0, staged: 0, forbidden_crash: Vec::new(), deferred_case_write: false, prop };
+    let mut g = G { r: seed_rng.fork(), serial: 0, rid: 0, staged: 0, forbidden_crash: Vec::new(), deferred_case_write: false, prop, pending_hs: Vec::new() };
     out.case(id, &header());
     let mut w = World::new(cas.clone());
     // how eager this case is to make progress (some cases are mostly noise)
@@ -244,13 +270,26 @@ fn gen_case(out: &mut Out, cas: &Rc<Vec<Ca>>, id: u64, seed_rng: &mut Rng, prop:
         let head = res.split(' ').next().unwrap_or("");
         let after = w.view();
         let kind = op.split(' ').next().unwrap_or("");
+        if kind == "hs" && head.starts_with('s') {
+            let f: u8 = op.split(' ').nth(1).and_then(|x| x.parse().ok()).unwrap_or(0);
+            if let Ok(id) = head[1..].parse::<u32>() {
+                g.pending_hs.push((id, f));
+            }
+        }
+        if kind == "hsdone" {
+            let id: u32 = op.split(' ').nth(1).and_then(|x| x.parse().ok()).unwrap_or(0);
+            g.pending_hs.retain(|x| x.0 != id);
+        }
+        if ["restart", "crash", "corrupt", "coldreset", "fabrecover"].contains(&kind) {
+            g.pending_hs.clear();
+        }
         if kind == "root" && head == "ok" {
             g.staged = op.split(' ').nth(2).and_then(|x| x.parse().ok()).unwrap_or(0);
         }
         if kind == "complete" && head == "ok" && after.kvlen == before.kvlen + 2 {
             g.forbidden_crash.push(before.kvlen as u64 + 1);
         }
-        if ["crash", "corrupt"].contains(&kind) {
+        if ["crash", "corrupt", "coldreset", "fabrecover"].contains(&kind) {
             // the store history was cut: later mutation numbers differ
             let k = after.kvlen as u64;
             g.forbidden_crash.retain(|n| *n < k);
@@ -279,7 +318,7 @@ fn gen_case(out: &mut Out, cas: &Rc<Vec<Ca>>, id: u64, seed_rng: &mut Rng, prop:
                 nt_gone_with_refs = true;
             }
         }
-        if ["restart", "crash", "corrupt", "freset"].contains(&kind) && before.kvlen > 0 {
+        if ["restart", "crash", "corrupt", "freset", "coldreset", "fabrecover"].contains(&kind) && before.kvlen > 0 {
             nt_restart = true;
         }
     }
@@ -300,11 +339,33 @@ fn gen_case(out: &mut Out, cas: &Rc<Vec<Ca>>, id: u64, seed_rng: &mut Rng, prop:
 /// tick boundary (the real 1-second poll and the few virtual milliseconds every exchange costs)
 fn h_compat(ops: &[String]) -> Vec<String> {
     let mut res = Vec::new();
+    // the session of the most recent session-borne op: carries the extra interactions below
+    let mut last_sid: u64 = 0;
     for op in ops {
         let w: Vec<&str> = op.split_whitespace().collect();
         let n = |i: usize| -> u64 { w.get(i).and_then(|x| x.parse().ok()).unwrap_or(0) };
-        match w.first().copied().unwrap_or("") {
-            "acl" | "grp" | "net" | "rmnet" | "freset" | "corrupt" | "poll" => {}
+        let kind = w.first().copied().unwrap_or("");
+        if ["open", "arm", "csr", "root", "addnoc", "updnoc", "acl", "grp", "label", "net", "rmnet", "complete", "rmfab", "revoke", "bcw", "gkm"].contains(&kind) {
+            last_sid = n(1);
+        }
+        match kind {
+            "freset" | "corrupt" | "hs" | "hsdone" | "coldreset" | "fabrecover" | "rt" => {}
+            // group table writes have no handler on the root endpoint: a group key map write instead
+            "grp" => res.push(format!("gkm {} {}", n(1), n(2))),
+            // the real 1-second poll runs anyway: a subscription over the last session instead
+            "poll" => res.push(format!("sub {}", last_sid)),
+            "flush" => {
+                res.push(op.clone());
+                res.push(format!("bind {} {}", last_sid, 300 + n(1) % 3));
+            }
+            "label" => {
+                res.push(op.clone());
+                res.push(format!("nlabel {} {}", n(1), n(2)));
+            }
+            "open" => {
+                res.push(op.clone());
+                res.push(format!("ulabel {} {}", n(1), 1 + n(1) % 4));
+            }
             "arm" => {
                 let t = if n(2) == 0 { 0 } else if n(2) < 100 { 61 } else { 122 };
                 res.push(format!("arm {} {}", n(1), t));
@@ -312,6 +373,7 @@ fn h_compat(ops: &[String]) -> Vec<String> {
             "tick" => res.push(format!("tick {}", if n(1) < 30 { 7 } else if n(1) < 250 { 203 } else { 504 })),
             "cest" => res.push(format!("cest {} 100 {}", n(1), n(3))),
             "addnoc" => res.push(format!("addnoc {} {} {} {} {} {}", n(1), n(2), n(3), n(4), if n(5) == 0 { 0 } else { 100 }, n(6))),
+            // the admin subject must stay the CASE peer (the real access check runs): other subjects are fine as additions
             _ => res.push(op.clone()),
         }
     }
@@ -328,11 +390,25 @@ pub fn gen(prop: &'static str, a: &Args) -> String {
         _ => "one administrative history generated online (65-90% the next sensible commissioning step, rest out-of-order / repeated / other-session commands, expiry by timer / ArmFailSafe(0) / revoke / restart, store faults); non-trivial = the fail-safe was armed, a credential/ACL/group/label/network change was accepted under it, and the fail-safe ended (completed or rolled back); distinct = by operation list",
     };
     out.buf.push_str(&format!("#rule {}\n", rule));
-    let n_cases = if a.thorough { 30000 } else { 3000 };
+    let n_cases = if a.thorough { 20000 } else { 3000 };
     let h_every = if a.thorough { 20 } else { 15 };
     for id in 0..n_cases {
         let len = if a.thorough { r.range(8, 70) } else { r.range(8, 40) } as usize;
         let mark = out.buf.len();
+        if prop == "C11" && id % 12 == 7 {
+            // a case of TLV round trips only: every persisted structure the state-level harness can
+            // store by itself, values within (and at) the capacity limits
+            out.case(id, &header());
+            let mut w = World::new(cas.clone());
+            let mut rr = r.fork();
+            for _ in 0..10 {
+                let op = format!("rt {} {}", rr.pick(&["fab", "nets", "nets", "res", "res", "binfo"]), rr.range(0, 1 << 40));
+                step(&mut out, &cas, &mut w, &op);
+            }
+            out.buf.push_str("#nt\n");
+            out.stat("cases_roundtrip", 1);
+            continue;
+        }
         gen_case(&mut out, &cas, id, &mut r, prop, len);
         if id % h_every == 0 {
             // the same history (made handler-compatible) through the REAL cluster handlers
